@@ -656,6 +656,8 @@ class VSocket:
     def shutdown(self, how):
         if self.closed:
             raise OSError(errno.EBADF, 'Bad file descriptor')
+        if self.dead in ('reset', 'epipe'):
+            raise OSError(errno.ENOTCONN, 'Transport endpoint is not connected')
 
     def close(self):
         if not self.closed:
